@@ -153,3 +153,10 @@ CHECKS["C03"] = {
     "text": "quick: 3,441 programs / 10k passes; thorough: 19.7k programs / 58.6k passes. t1 = W(R(src)), t2 = W(R(t1)), t3 = W(R(t2)) must satisfy t1 == t2 == t3 byte for byte, and no CodeBlock banner or verbatim line may be lost or duplicated.",
     "note": "This version's FortranReader cannot keep source comments/directives, so the comment/directive clause is checked on what the writer emits itself. Programs the reader rejects cleanly are counted, not failed. 2 open findings (leaked WHERE loop variable declaration grows each pass; COMMON statement changes position).",
 }
+
+CHECKS["C25"] = {
+    "level": "model_checking",
+    "technique": "explicit-state BFS over accepted GOcean transformation histories of generated 1-2 kernel invokes (every index offset x grid-point type x built-in / user-defined iteration space loaded through a generated psyclone.cfg); each state is lowered by PSyclone and executed by the E1 reference interpreter on mock dl_esm_inf field objects for every enumerated grid; the recorded (kernel, i, j) visits are compared with a 10-line region evaluator",
+    "text": "135 one-kernel invokes (3 offsets x 5 grid-point types x {go_all_pts, go_internal_pts, go_external_pts, 6 user-defined spaces}) plus two-kernel families, x constant-loop-bounds on/off x 25 grids (internal region starting at 2, stops 1..5 incl. empty) x BFS over the ten GOcean transformations (quick depth 1 + leading GOConstLoopBoundsTrans: 8k states; thorough depth 2: 82k states). Each kernel must be called exactly once per point of its region, in invoke order per point, before and after every accepted history.",
+    "note": "dl_esm_inf is not vendored: without constant loop bounds the expected region is the rectangle stored in the mock field, with them a frozen transcription of the built-in table; grids whose internal region does not start at 2 are outside the domain ({start} is documented as 2) and are not enumerated; go_offset_any vs field rectangle on mixed invokes is not judged. Fixed: go_every ignoring user-defined spaces, loop fusion across different index offsets, move-boundaries on a shared loop.",
+}
